@@ -75,6 +75,12 @@ def _run(V, work, tier):
         chains += [tuple(rnd.choice(wr) for _ in range(3)) for _ in range(1200)]
     else:
         chains = chains[:31] + rnd.sample(chains[31:], 150)
+    # long terminal chains: the tail call under 15 .. 40 nested terminal forms (the search for the resumable frame has to
+    # look that far down)
+    # (special operators only: a lambda in the chain is a tail call of its own and collapses what is above it)
+    tw = [w for w in wr if w[0] in ("progn-last", "let-body", "let*-body", "if-then", "if-else", "cond-clause", "cond-first", "or-last", "flet-body", "labels-body")]
+    for L in (15, 16, 17, 18, 24, 33, 40):
+        chains.append(tuple(rnd.choice(tw) for _ in range(L)))
     loops = []
     for ci, ch in enumerate(chains):
         mutual = rnd.random() < 0.3
